@@ -482,6 +482,9 @@ func runCase(mode string) func(t *rapid.T, c *ev.Case) {
 					qmode = rapid.SampledFrom([]string{"agg", "bucket", "bucket", "raw"}).Draw(t, "qmode")
 				}
 				q := genQuery(t, qmode, !g.noOverwrite)
+				if mode == "layers" && !q.Desc && q.Limit == 0 && q.Offset == 0 && rapid.IntRange(0, 2).Draw(t, "moreDesc") == 0 {
+					q.Desc = true // the layer-folding cursors have separate ascending and descending paths: about half of the reads go down
+				}
 				if q.Fill == "previous" && q.Desc {
 					// fill(previous) under ORDER BY time DESC fills in output order (as InfluxDB does): the statement's
 					// "descending = ascending reversed" is not defined for it; left out, not a finding
@@ -655,7 +658,7 @@ func runCase(mode string) func(t *rapid.T, c *ev.Case) {
 			if rapid.IntRange(0, 3).Draw(t, "mem") > 0 {
 				put(layer("mem", 0, span, 4), false, "layer:memtable-over-out-of-order")
 			}
-			queries(t, rapid.IntRange(4, 8).Draw(t, "ql1"))
+			queries(t, rapid.IntRange(6, 10).Draw(t, "ql1"))
 			if rapid.Bool().Draw(t, "more") {
 				put(layer("ooo2", 0, span, 3), rapid.Bool().Draw(t, "flush2"), "layer:second-rewrite")
 				queries(t, rapid.IntRange(3, 6).Draw(t, "ql2"))
